@@ -389,27 +389,38 @@ impl<'s, 'b> Gen<'s, 'b> {
             self.tag("shadowed-definition");
         }
         let sig = FunSig { name: name.clone(), params: params.iter().map(|p| p.1).collect() };
-        // body scope: outer scope + itself (recursion) + parameters
+        // body scope: outer scope + parameters; the definition itself is visible in its body
+        // (recursion) - the generator calls it only in the bounded-recursion shapes below,
+        // so it hides the name inside other bodies (a call to an outer definition of the same
+        // name and arity would in fact be a recursive call)
+        let recursive = self.src.chance(70);
         let mut body_sc = sc.clone();
-        body_sc.funs.push(sig.clone());
+        body_sc.funs.retain(|f| !(f.name == sig.name && f.params.len() == sig.params.len()));
+        if params.is_empty() {
+            // ... and so would be a use of an outer filter parameter of that name
+            body_sc.args.retain(|a| *a != sig.name);
+        }
         for (p, is_var) in &params {
             if *is_var {
                 body_sc.vars.push(p.clone());
             } else {
                 // a filter parameter shadows definitions of arity 0 with the same name
                 body_sc.args.push(p.clone());
+                body_sc.funs.retain(|f| !(f.name == *p && f.params.is_empty()));
             }
         }
-        let recursive = self.src.chance(70);
         let body = if recursive {
             self.tag("recursive-definition");
-            // bounded recursion: the input is a counter
+            // bounded recursion: the input is a counter; only the exact integers 0, 1, 2 recurse
+            // (NaN, infinities and non-numbers take the base case), so that every generated
+            // recursion terminates on every input
             let call = self.call_with_same_args(&sig, &params);
             let step = self.term(&body_sc, d.min(1));
+            let guard = "(. == 0 or . == 1 or . == 2) | not";
             match self.src.below(3) {
-                0 => format!("if (. | type) != \"number\" or . >= 3 then {step} else ., (.+1 | {call}) end"),
-                1 => format!("if (. | type) != \"number\" or . >= 3 then empty else {step}, (.+1 | {call}) end"),
-                _ => format!("if (. | type) != \"number\" or . >= 2 then . else (.+1 | {call}) | {step} end"),
+                0 => format!("if {guard} then {step} else ., (.+1 | {call}) end"),
+                1 => format!("if {guard} then empty else {step}, (.+1 | {call}) end"),
+                _ => format!("if {guard} then . else (.+1 | {call}) | {step} end"),
             }
         } else {
             self.term(&body_sc, d)
